@@ -143,3 +143,6 @@
 (assert (forall ((a Str) (b Str)) (! (= (slen (app a b)) (+ (slen a) (slen b))) :pattern ((slen (app a b))))))
 (assert (forall ((a Str) (b Str) (k Int)) (! (= (at (app a b) k) (ite (< k (slen a)) (at a k) (at b (- k (slen a))))) :pattern ((at (app a b) k)))))
 (assert (forall ((b Int)) (! (=> (and (<= 0 b) (<= b 255)) (and (= (slen (byteStr b)) 1) (= (at (byteStr b) 0) b))) :pattern ((byteStr b)))))
+; WriteByte of an ASCII byte writes what WriteRune of that code point writes
+(assert (forall ((b Int)) (! (=> (and (<= 0 b) (< b 128)) (= (byteStr b) (runeStr b))) :pattern ((byteStr b)))))
+(assert (forall ((b Int)) (! (=> (and (<= 0 b) (< b 128)) (and (= (slen (runeStr b)) 1) (= (at (runeStr b) 0) b))) :pattern ((runeStr b)))))
